@@ -76,7 +76,6 @@ static void check_iter(const TopologyKernel &m, const bool *del, int n) {
     v_assert(j == -1, "C05 iter: backward stepping visits every live entity exactly once");
   }
   // ---- symbolic start handle
-#ifndef C05_NO_SYM
   {
     int s = (int)v_nondet_below((unsigned)n + 1);
     int cur = n, nxt = n, prv = -1;   // first live >= s; first live > cur; last live < cur
@@ -101,7 +100,6 @@ static void check_iter(const TopologyKernel &m, const bool *del, int n) {
       }
     } else v_assert(it == e, "C05 iter: iterator(start) with nothing live behind start equals end");
   }
-#endif
 }
 
 static bool g_vdel[MAXIT], g_edel[MAXIT], g_hedel[MAXIT], g_fdel[MAXIT], g_hfdel[MAXIT], g_cdel[MAXIT];
